@@ -730,7 +730,9 @@ pub fn diagnostic_display_input<W: std::fmt::Write>(w: &mut W, input: &Inp) -> R
         Inp::Star => write!(w, r#"*"#)?,
         Inp::Command { cmd, .. } => write!(w, r#"{{{{{{ {cmd} }}}}}}"#)?,
         Inp::Compadd { cmd, .. } => write!(w, r#"{{{{{{ {cmd} }}}}}}compadd"#)?,
-        Inp::Subword { .. } => unreachable!(),
+        // The words leading up to the offending place may well be matched by a subword expression.  There's no
+        // access to its sub-DFA from here, so just mark that some word goes there.
+        Inp::Subword { fallback_level, .. } => write!(w, r#"<subword> ({fallback_level})"#)?,
     }
     Ok(())
 }
